@@ -73,6 +73,18 @@ func profilesFor(id string) []*Profile {
 			}
 			out = append(out, p)
 		}
+		{
+			q := baseProfile("sampled")
+			q.Sample = true
+			withW(q, "updateref", 0, "config", 0, "settz", 0, "dfswap", 3, "rmdir", 4, "reset", 7, "commit", 11, "restore", 6, "restores", 6, "rm", 6)
+			switch id {
+			case "C06":
+				q.Obs = ObsSpec{Ls: true}
+			case "C07":
+				q.Obs = ObsSpec{Status: true}
+			}
+			out = append(out, q)
+		}
 		if id == "C02" {
 			// identity split over the two scopes (no identity configured up front)
 			p := baseProfile("identity")
@@ -97,7 +109,7 @@ func profilesFor(id string) []*Profile {
 		for i, fam := range [][]string{famOdd, famNest, famSib, famExt} {
 			p := baseProfile(fmt.Sprintf("tree%d", i))
 			p.Paths = fam
-			withW(p, "commit", 14, "reset", 12, "rm", 8, "updateref", 0, "config", 0)
+			withW(p, "commit", 14, "reset", 12, "rm", 8, "updateref", 0, "config", 0, "cpdir", 4)
 			p.Obs = ObsSpec{CatFile: true, Ls: true, Reflog: true}
 			out = append(out, p)
 		}
@@ -110,7 +122,11 @@ func profilesFor(id string) []*Profile {
 		q.Paths = famOdd
 		withW(q, "reset", 18, "commit", 12, "remove", 6, "rmdir", 4)
 		q.Obs = ObsSpec{Reflog: true}
-		return []*Profile{p, q}
+		s := baseProfile("resetsampled")
+		s.Sample = true
+		withW(s, "reset", 16, "commit", 12, "remove", 6, "rmdir", 4, "write", 16, "add", 14, "dfswap", 2)
+		s.Obs = ObsSpec{Reflog: true}
+		return []*Profile{p, q, s}
 	case "C10":
 		p := baseProfile("refs")
 		p.Paths = []string{"a", "b"}
@@ -134,7 +150,16 @@ func profilesFor(id string) []*Profile {
 			"restore", 0, "restores", 0, "remove", 0, "rmdir", 0, "touch", 0, "mkdir", 0)
 		p.Msgs = append(append([]string{}, defaultMsgs...), "multi\n\nblank\nlines: yes", strings.Repeat("long ", 500), "colon: at: start")
 		p.Obs = ObsSpec{Log: true, LogKs: []int{1}, CatFile: true}
-		return []*Profile{p}
+		// identity split over the two scopes (no identity configured up front)
+		q := baseProfile("identity")
+		q.Paths = []string{"a", "b"}
+		q.NoInitCfg = true
+		q.CfgVals = []string{"Alice", "Bob B", "Zoë"}
+		withW(q, "config", 18, "commit", 14, "write", 12, "add", 12, "updateref", 0, "settz", 2, "reset", 1, "rm", 1, "restore", 0, "restores", 0, "branch", 0, "branchd", 0, "branchr", 0, "switch", 0, "switchc", 0,
+			"remove", 0, "rmdir", 0, "touch", 0, "mkdir", 0, "cpdir", 0)
+		q.TZs = []int{0, 540, -300}
+		q.Obs = ObsSpec{Log: true, LogKs: []int{1}}
+		return []*Profile{p, q}
 	case "C13", "C17":
 		p := baseProfile("worktree")
 		p.Paths = append(append([]string{}, famIgn...), "d/e/f/g", "d/e/h", "lib/a", "lib.go", "pkg.tar.gz", "dist/p-1.tar.gz", "x.min.js")
@@ -329,7 +354,7 @@ func functionalPlan(id string, quickTraces, thoroughTraces int) func(cx *CheckCt
 		}
 		jobs := scenarioJob(id, obsFor(id))
 		jobs = append(jobs, modelJobs(cx, id)...)
-		if id == "C05" || id == "C02" || id == "C07" {
+		if id == "C05" || id == "C02" || id == "C07" || id == "C06" || id == "C08" {
 			// replay of the exhaustive tree-algebra instance MC_Tree (all subsets of a confusing name universe)
 			size := 2
 			if cx.Tier == "thorough" {
@@ -381,8 +406,9 @@ func runReplayFS(rf *ReplayFile) int {
 
 // modelJobs: behaviours generated by TLC from the bounded instances of the operational model.
 var modelFor = map[string][]string{
-	"C02": {"Stage", "Dir"}, "C04": {"Stage", "Dir"}, "C05": {"Stage"}, "C06": {"Dir", "Stage"}, "C07": {"Stage"}, "C09": {"Dir", "Stage"}, "C13": {"Dir", "Stage"}, "C17": {"Ignore", "Stage"}, "C20": {"Config"}, "C12": {"Sign"},
-	"C03": {"Refs", "Stage"}, "C08": {"Refs", "Stage"}, "C10": {"Refs"}, "C11": {"Refs"}, "C14": {"Refs"}, "C18": {"Refs", "Stage"}, "C01": {"Stage"},
+	"C01": {"Stage"}, "C02": {"Stage", "Dir"}, "C03": {"Refs", "DirBase"}, "C04": {"Dir", "DirBase", "Stage"}, "C05": {"Stage", "DirBase"},
+	"C06": {"Dir", "DirBase"}, "C07": {"Stage", "DirBase"}, "C08": {"Refs", "DirBase"}, "C09": {"Dir", "DirBase"}, "C10": {"Refs"}, "C11": {"Refs"},
+	"C12": {"Sign"}, "C13": {"DirBase", "Stage"}, "C14": {"Refs"}, "C17": {"Ignore", "Stage"}, "C18": {"Refs", "DirBase"}, "C20": {"Config"},
 }
 
 func modelJobs(cx *CheckCtx, id string) []Job {
@@ -406,7 +432,7 @@ func modelJobs(cx *CheckCtx, id string) []Job {
 	}
 	var treeMS *ModelStats
 	var treeErr error
-	if id == "C05" || id == "C02" || id == "C07" {
+	if id == "C05" || id == "C02" || id == "C07" || id == "C06" || id == "C08" {
 		wg.Add(1)
 		go func() {
 			defer wg.Done()
